@@ -82,8 +82,12 @@ def observe(payload, kind):
                 return ("exc", "NoMessage", 0)
         else:
             errs = []
-            rdr = RTCMReader(io.BytesIO(pinned.frame(payload) * 2), quitonerror=1,
-                             errorhandler=errs.append)
+            # a mixed stream: NMEA sentence, frame, UBX frame, frame (the reader's protocol
+            # look-up tables are consulted as well as the message tables)
+            fr = pinned.frame(payload)
+            mixed = (b"$GNGGA,1*00\r\n" + fr + b"\xb5\x62\x01\x02\x02\x00\x07\x09\x15\x4a" + fr
+                     + b"$PUBX,00*33\r\n")
+            rdr = RTCMReader(io.BytesIO(mixed), quitonerror=1, errorhandler=errs.append)
             got = [(bytes(r), repr(R.public_attrs(m))) for r, m in rdr]
             return ("reader", core.h64(repr((got, [type(e).__name__ for e in errs]))))
         return ("ok", core.h64(repr((msg.identity, R.public_attrs(msg), str(msg)))))
@@ -196,9 +200,16 @@ def judge(case):
 # ---------------------------------------------------------------------------
 # threads
 # ---------------------------------------------------------------------------
+def _obs(p, lm=1):
+    """A thread operand is a payload (parsed directly) or a (kind, payload) pair."""
+    if isinstance(p, (tuple, list)):
+        return observe(bytes(p[1]), p[0])
+    return observe(p, "msg1" if lm == 1 else "msg2")
+
+
 def _mk_body(payload, lm=1):
     def body():
-        return observe(payload, "msg1" if lm == 1 else "msg2")
+        return _obs(payload, lm)
 
     return body
 
@@ -208,7 +219,7 @@ def judge_threads(case):
 
     out = core.Outcome()
     pa, pb = case["payloads"]
-    ref = (observe(pa, "msg1"), observe(pb, "msg1"))
+    ref = (_obs(pa), _obs(pb))
     snap0 = snapshot()
     ch = Chooser(case["choices"])
     res, steps, pre = sched.execute([_mk_body(pa), _mk_body(pb)], ch, case.get("gran", "line"))
@@ -223,12 +234,12 @@ def judge_threads_cold(case):
     out = core.Outcome()
     pa, pb = case["payloads"]
     post = case["post"]
-    ref, _snaps = references([{"payload": p} for p in [pa, pb] + post])
+    ref, _snaps = references([{"payload": _opk(p)[0]} for p in [pa, pb] + post])
     res, _steps, pre, _n, after = sched.execute_cold(
         lambda: [_mk_body(pa), _mk_body(pb)], case["choices"], case.get("gran", "line"),
-        post=lambda: [observe(p, "msg1") for p in [pa, pb] + post])
-    _thread_oracle(res, (ref[(pa, "msg1")], ref[(pb, "msg1")]), pre, out, case.get("name", ""))
-    want = [ref[(p, "msg1")] for p in [pa, pb] + post]
+        post=lambda: [_obs(p) for p in [pa, pb] + post])
+    _thread_oracle(res, (ref[_opk(pa)], ref[_opk(pb)]), pre, out, case.get("name", ""))
+    want = [ref[_opk(p)] for p in [pa, pb] + post]
     if list(after) != want:
         out.bad("result-depends-on-history:after-concurrent-parses",
                 f"{case.get('name')}: sequential parses after the cold schedule differ from references")
@@ -247,8 +258,8 @@ def _thread_oracle(res, ref, pre, out, name):
 def explore_threads(item):
     name, pa, pb, gran, bound, roots = item
     st = core.Stats()
-    observe(pa, "msg1"), observe(pb, "msg1")  # warm-up: lazily built private state, if any
-    ref = (observe(pa, "msg1"), observe(pb, "msg1"))
+    _obs(pa), _obs(pb)  # warm-up: lazily built private state, if any
+    ref = (_obs(pa), _obs(pb))
     snap0 = snapshot()
     steps_seen = set()
 
@@ -270,14 +281,16 @@ def explore_threads(item):
             except ReplayDivergence as err:
                 # a schedule that exists on a clean library no longer exists: either earlier
                 # executions changed later behaviour (a C13 violation) or the harness is broken
-                now = (observe(pa, "msg1"), observe(pb, "msg1"))
-                want = (_REF.get((pa, "msg1"), ref[0]), _REF.get((pb, "msg1"), ref[1]))
+                now = (_obs(pa), _obs(pb))
+                want = (_REF.get((pa, "msg1"), ref[0]) if isinstance(pa, bytes) else ref[0],
+                        _REF.get((pb, "msg1"), ref[1]) if isinstance(pb, bytes) else ref[1])
                 if now != want or now != ref:
                     out = core.Outcome()
                     out.bad("result-depends-on-history:after-concurrent-parses",
                             f"{name}: after earlier two-thread executions a sequential parse gives "
                             f"{str(now)[:100]} instead of {str(want)[:100]}")
-                    st.add({"kind": "hist", "history": [(pa, "msg1"), (pb, "msg1")]}, out)
+                    st.add({"kind": "hist", "history": [(pa, "msg1") if isinstance(pa, bytes) else (pa[1], pa[0]),
+                                                        (pb, "msg1") if isinstance(pb, bytes) else (pb[1], pb[0])]}, out)
                     break
                 raise core.Broken(f"{name}: {err}") from err
             out = core.Outcome()
@@ -317,14 +330,26 @@ def cold_pairs():
          [b("1077", {"DF394": 7 << 50, "DF395": 3 << 20, "DF396": 0b111111})]),
         ("cold 1005|1006 then 1033", b("1005"), b("1006"),
          [b("1033", {"DF029": 4, "DF032": 3, "DF227": 2, "DF229": 1, "DF231": 5})]),
+        # two READERS over mixed streams (NMEA / UBX / RTCM): the protocol look-up tables are shared too
+        ("cold reader(1005)|reader(1006) then 1005", ("reader", b("1005")), ("reader", b("1006")),
+         [b("1005"), ("reader", b("1005"))]),
     ]
 
 
-def cold_payloads():
+def cold_operands():
     out = []
     for _n, pa, pb, post in cold_pairs():
         out += [pa, pb] + post
     return out
+
+
+def _opk(p):
+    """(payload, kind) of a thread operand."""
+    return (p, "msg1") if isinstance(p, bytes) else (bytes(p[1]), p[0])
+
+
+def cold_payloads():
+    return [_opk(p)[0] for p in cold_operands()]
 
 
 def explore_threads_cold(item):
@@ -342,12 +367,15 @@ def explore_threads_cold(item):
     def body(ch):
         res, steps, pre, npoints, after = sched.execute_cold(
             lambda: [_mk_body(pa), _mk_body(pb)], ch.prefix, gran,
-            post=lambda: [observe(p, "msg1") for p in [pa, pb] + post] + [snapshot()])
+            post=lambda: [_obs(p) for p in [pa, pb] + post] + [snapshot()])
         ch.trace = [(2, ch.prefix[i] if i < len(ch.prefix) else 0, "pt") for i in range(npoints)]
         return res, steps, pre, after
 
-    ref = (refs[pa], refs[pb])
-    want_after = [refs[p] for p in [pa, pb] + post]
+    def rk(p):
+        return p if isinstance(p, bytes) else (p[0], bytes(p[1]))
+
+    ref = (refs[rk(pa)], refs[rk(pb)])
+    want_after = [refs[rk(p)] for p in [pa, pb] + post]
     # this part explores the schedules whose FIRST pre-emption position is in its residue class
     # (part 0 also runs the schedule without pre-emption)
     n0 = body(Chooser(()))[1][0]
@@ -557,7 +585,7 @@ def run(tier, seed, t0):
     cases_.append({"kind": "hist", "history": order[::2] + order[1::2] + order[::3]})
     # cold two-thread explorations first: this process has parsed nothing so far, each work item
     # gets a fresh fork of it (maxtasksperchild=1) and forks again for every schedule
-    crefs = {p: _REF[(p, "msg1")] for p in cold_payloads()}
+    crefs = {(p if isinstance(p, bytes) else (p[0], bytes(p[1]))): _REF[_opk(p)] for p in cold_operands()}
     crefs["snapshot"] = _SNAP0
     cold = []
     for name, pa, pb, post in cold_pairs():
